@@ -41,7 +41,7 @@ type gstate struct {
 	fds     []gfd
 }
 
-var nameStock = []string{"a", "b", "c", "d"}
+var nameStock = []string{"a", "b", "c", "d", "e.tmp"}
 var dirStock = []string{"d1", "d2", "d3"}
 
 func genData(r *proto.Rng) []byte {
@@ -338,6 +338,17 @@ func (fd *fsDriver) one(w []string) string {
 				fd.fs.AtomicCreate(w[1], w[2], data)
 			}
 			scribble(data)
+			return "ok"
+		case "plant":
+			// plant <fname> <hex>: leftovers of earlier crashed processes under the very names this process's
+			// next AtomicCreate calls for <fname> will use for their temporary files (same pid, next counters)
+			data, err := proto.Unhex(w[2])
+			if err != nil || fd.root == "" {
+				return "bad-op"
+			}
+			for k := 0; k < 400; k++ {
+				os.WriteFile(filepath.Join(fd.root, fmt.Sprintf("%s.%d.%d.tmp", w[1], os.Getpid(), k)), data, 0644)
+			}
 			return "ok"
 		case "list":
 			var ns []string
